@@ -92,9 +92,9 @@ def run(ctx):
     errs = [0, 0, 2, 35, 107, 2 ** 32 + 13]
     base = ctx.seed * 49979687
     cases = [{'name': n, 'seed': base + 31 * i + 7919 * r, 'err': errs[(i + r) % len(errs)], 'lookups': (i + r) % 3}
-             for r in range(ctx.n(60, 300)) for i, n in enumerate(tw)]
+             for r in range(ctx.n(60, 1500)) for i, n in enumerate(tw)]
     ctx.run_enum('twin', cases, prop_twin, exhaustive_label='every registered X/X_nocancel pair (tuples sampled)')
     if tw:
         strat = st.fixed_dictionaries({'name': st.sampled_from(tw), 'seed': st.integers(0, 2 ** 62),
                                        'err': st.one_of(st.sampled_from(errs), S.u64), 'lookups': st.integers(0, 2)})
-        ctx.run_given('twin', strat, prop_twin, ctx.n(1500, 6000))
+        ctx.run_given('twin', strat, prop_twin, ctx.n(1500, 20000))
